@@ -154,7 +154,7 @@ type EditCase struct {
 
 var recEdit = ev.New("C16", "c16.text-only-classification",
 	"edit sequences T0 -> T1 -> ... (1..6 edits drawn from: text changes, constant attribute changes, renaming an expression attribute to/from style, class, href, action, onclick, hx-on:*, moving an expression between text, attribute and script positions, quoting/unquoting {{ }} inside a script, swapping / wrapping / renaming / adding / dropping nodes) are fed through generatecmd's FSEventHandler in development mode with advancing modification times. "+
-		"Oracle: whenever the handler classifies an edit as needing no recompilation (GoUpdated == false), the Go generated for the new version must have the same token stream as the Go that was compiled last, with only the string literals handed to templruntime.WriteString and the positions in templ.Error masked - then the running binary reading the new text file is the new program. "+
+		"Oracle: after every version the development text file on disk holds exactly that version's literals (what the running program will print); whenever the handler classifies an edit as needing no recompilation (GoUpdated == false), the Go generated for the new version must have the same token stream as the Go that was compiled last, with only the string literals handed to templruntime.WriteString and the positions in templ.Error masked - then the running binary reading the new text file is the new program. "+
 		"Non-trivial = an edit classified text-only; distinct by (versions)")
 
 // editError: known is true when the two versions have the same number of literals and the same
@@ -184,6 +184,7 @@ func decideEditsN(c EditCase) (textOnly int, err error) {
 	var compiled []gonorm.Tok
 	var compiledSrc string
 	var compiledOut generator.GeneratorOutput
+	prevSrc := ""
 	for i, f := range c.Versions {
 		tgen.Normalize(f)
 		src, _ := tgen.Print(f, "P0")
@@ -200,6 +201,16 @@ func decideEditsN(c EditCase) (textOnly int, err error) {
 			panic("harness: " + terr.Error())
 		}
 		recEdit.Eval(1)
+		// Whatever the classification, the text file the running program reads must now hold the
+		// literals of this version.
+		txt, rerr := p.TxtFile(0)
+		if rerr != nil {
+			return textOnly, &editError{msg: fmt.Sprintf("after version %d the development text file cannot be read: %v\n%s", i, rerr, src)}
+		}
+		if want := strings.Join(g.Output.Literals, "\n"); txt != want {
+			return textOnly, &editError{msg: fmt.Sprintf("after version %d (GoUpdated=%v TextUpdated=%v) the development text file holds %q, the literals of this version are %q\n--- previous version:\n%s\n--- this version:\n%s", i, r.GoUpdated, r.TextUpdated, clip(txt), clip(want), prevSrc, src)}
+		}
+		prevSrc = src
 		if i == 0 || r.GoUpdated {
 			compiled, compiledSrc, compiledOut = toks, src, g.Output
 			recEdit.Class("recompile")
